@@ -1119,3 +1119,19 @@ Proof.
     assert (x1 = s1) by congruence. subst x1. assert (x2 = s2) by congruence. subst x2. assert (s' = sM) by congruence. subst s'. reflexivity.
   - rewrite TM in TST. exact TST.
 Qed.
+
+(* whenever the source's sbdf_ts_read succeeds - under ANY allocation schedule, with any column subset - and the L1 model's
+   ts_read accepts the stream, the two leave the stream at the same place *)
+Theorem ts_read_position_is_the_models rf rp fo po k sx m (h : heap) tmb n sub t sM : Forall byte sx -> 0 <= n <= 715827882 -> cell_get h tmb 1 = Some (VInt n) -> flags_in n sub m ->
+  (forall s1 s2, sec_read sx = Ok (3, s1) -> read_int32 false s1 = Ok (n, s2) -> colsf_nobit sub (Z.to_nat n) 0 s2) ->
+  Slice.ts_read false None n (msub sub 0) sx = Ok (t, sM) ->
+  exists f0, forall f, (f0 <= f)%nat -> exists st fin,
+    callC prog_env f prog_sbdf_ts_read [VPtr rf fo; VCell tmb 0; sv sub; VPtr rp po] m k sx h = OReturn (VInt st) fin /\
+    (st = SBDF_OK -> lookup strm_var (vars fin) = Some (VBytes sM)).
+Proof.
+  intros Hs Hn Htm Fl NBC EM. destruct (ts_read_sub_source rf rp fo po k sx m h tmb n sub Hs Hn Htm Fl NBC) as (f0 & F). exists f0. intros f Hf.
+  destruct (F f Hf) as (st & fin & C & _ & _ & Out & _). exists st, fin. split; [exact C|]. intros E.
+  destruct Out as [(_ & _ & (s1 & s2 & s' & A1 & A2 & A3 & A4) & _)|(Hneg & _)]; [|unfold SBDF_OK in E; lia].
+  destruct (ts_pos_model n sub sx t sM ltac:(lia) EM) as (x1 & x2 & B1 & B2 & B3).
+  assert (x1 = s1) by congruence. subst x1. assert (x2 = s2) by congruence. subst x2. assert (s' = sM) by congruence. subst s'. exact A4.
+Qed.
